@@ -5,6 +5,10 @@
 //!
 //! The contents of this module are very tied to the serializer's behavior
 
+// Under `cargo kani` the name-lookup tables are backed by a solver-friendly map model (see /verif)
+#[cfg(kani)]
+use {crate::verif::LinearMap as HashMap, std::{borrow::Cow, cmp::Ordering}};
+#[cfg(not(kani))]
 use std::{borrow::Cow, cmp::Ordering, collections::HashMap};
 
 use super::self_referential::*;
@@ -302,4 +306,11 @@ impl<'a> PerTypeLookup<'a> {
 			per_direct_union_variant,
 		}
 	}
+}
+
+/// Verification harness mount point (only compiled under `cargo kani`; source lives outside this repository)
+#[cfg(kani)]
+#[allow(unused, missing_docs)]
+pub(crate) mod verif {
+	include!(concat!(env!("SAF_VERIF"), "/union_lookup.rs"));
 }
